@@ -218,9 +218,19 @@ func genC13() {
 		fd := findFunc(x.rel, x.recv, "Parse")
 		var lit ast.Expr
 		if fd != nil {
+			// the slice of fields: whatever local holds the result of strings.Split (its name does not matter)
+			fields := "parts"
+			ast.Inspect(fd, func(n ast.Node) bool {
+				if as, ok := n.(*ast.AssignStmt); ok && len(as.Lhs) == 1 && len(as.Rhs) == 1 {
+					if c, ok := as.Rhs[0].(*ast.CallExpr); ok && exprText(c.Fun) == "strings.Split" {
+						fields = exprText(as.Lhs[0])
+					}
+				}
+				return true
+			})
 			ast.Inspect(fd, func(n ast.Node) bool {
 				be, ok := n.(*ast.BinaryExpr)
-				if ok && lit == nil && be.Op == token.NEQ && exprText(be.X) == "len(parts)" {
+				if ok && lit == nil && be.Op == token.NEQ && exprText(be.X) == "len("+fields+")" {
 					lit = be.Y
 				}
 				return true
